@@ -303,6 +303,10 @@ M("c11-vector-find-short", "C11", "vector find stops one element early",
   (VE, "    return cstl_raw_array_find(v->elem.base,\n                               v->count, v->elem.size,", "    return cstl_raw_array_find(v->elem.base,\n                               v->count ? v->count - 1 : 0, v->elem.size,"))
 M("c11-vector-reverse-scratch", "C11", "vector reverse uses the last element as scratch",
   (VE, "                           swap, __cstl_vector_at(v, v->cap));\n}\n\nvoid cstl_vector_swap", "                           swap, __cstl_vector_at(v, v->count ? v->count - 1 : 0));\n}\n\nvoid cstl_vector_swap"))
+M("c12-foreach-result-char", "C12", "dlist foreach keeps the visit result in a signed char (256 reads as 0: the traversal does not stop)",
+  (DL, "    struct cstl_dlist_node * c, * n;\n    int res = 0;\n\n    switch (dir) {", "    struct cstl_dlist_node * c, * n;\n    signed char res = 0;\n\n    switch (dir) {"))
+M("c03-find-accept-positive", "C03", "hash find accepts only positive visit results",
+  (HS, "        if (hfp->visit == NULL || hfp->visit(e, hfp->p) != 0) {", "        if (hfp->visit == NULL || hfp->visit(e, hfp->p) > 0) {"))
 # ----------------------------------------------------------------- C15
 M("c15-dlist-cb-before-unlink", "C15", "dlist clear calls back before unlinking",
   (DL, "    while (l->size > 0) {\n        clr(__cstl_dlist_erase(l, l->h.n), NULL);\n    }", "    while (l->size > 0) {\n        struct cstl_dlist_node * const n = l->h.n;\n        clr(__cstl_dlist_element(l, n), NULL);\n        __cstl_dlist_erase(l, n);\n    }"))
